@@ -71,14 +71,31 @@ fn id_of(i: usize) -> String {
 fn materialise(root: &Path, n: usize, adj: &[Vec<bool>], variant: u64, dangling: Option<usize>) {
     fs::create_dir_all(root).unwrap();
     for i in 0..n {
-        let d = root.join(DIRS[(i + (variant as usize / 4) * 5) % DIRS.len()]);
+        let d = root.join(DIRS[(i + (variant as usize / 4 % 2) * 5) % DIRS.len()]);
         fs::create_dir_all(&d).unwrap();
         let mut deps: Vec<usize> = (0..n).filter(|j| adj[i][*j]).collect();
         if variant & 1 == 1 {
             deps.reverse();
         }
-        let composite = !deps.is_empty() || (variant >> 1 & 1 == 1 && i % 2 == 0) || dangling == Some(i);
-        if composite {
+        // variant bit 3: every second buildpack that has dependencies is a libcnb.rs *component* buildpack (Cargo.toml) that
+        // declares them in its package.toml, instead of a composite
+        let component_with_deps = variant >> 3 & 1 == 1 && i % 2 == 1 && (!deps.is_empty() || dangling == Some(i));
+        let composite = !component_with_deps && (!deps.is_empty() || (variant >> 1 & 1 == 1 && i % 2 == 0) || dangling == Some(i));
+        if component_with_deps {
+            fs::write(d.join("buildpack.toml"), format!("api = \"0.10\"\n[buildpack]\nid = \"{}\"\nversion = \"1.0.0\"\n[[targets]]\nos = \"linux\"\narch = \"amd64\"\n", id_of(i))).unwrap();
+            fs::write(d.join("Cargo.toml"), format!("[package]\nname = \"n{i}\"\nversion = \"0.0.0\"\n")).unwrap();
+            let mut pkg = String::from("[buildpack]\nuri = \".\"\n");
+            for (k, j) in deps.iter().enumerate() {
+                if k % 2 == 1 {
+                    pkg.push_str("[[dependencies]]\nuri = \"../relative/noise\"\n");
+                }
+                pkg.push_str(&format!("[[dependencies]]\nuri = \"libcnb:{}\"\n", id_of(*j)));
+            }
+            if dangling == Some(i) {
+                pkg.push_str("[[dependencies]]\nuri = \"libcnb:vp/missing\"\n");
+            }
+            fs::write(d.join("package.toml"), pkg).unwrap();
+        } else if composite {
             let mut order = String::new();
             if deps.is_empty() {
                 order.push_str("[[order.group]]\nid = \"vp/none\"\nversion = \"1.0.0\"\n");
@@ -256,7 +273,7 @@ pub fn run(args: &[String]) {
             if counter % nshards != shard {
                 continue;
             }
-            let variant = (counter / nshards + seed) % 8;
+            let variant = (counter / nshards + seed) % 16;
             check_dag(&work.join(format!("d{counter}")), n, &adj, variant, &sels, &mut tally);
         }
     }
@@ -283,7 +300,7 @@ pub fn run(args: &[String]) {
             }
         }
         let sels = selections(n, Some((40, &mut rng)));
-        check_dag(&work.join(format!("r{r}")), n, &adj, rng.below(8), &sels, &mut tally);
+        check_dag(&work.join(format!("r{r}")), n, &adj, rng.below(16), &sels, &mut tally);
     }
     // dangling dependency
     let mut dangling_checked = 0;
@@ -302,7 +319,7 @@ pub fn run(args: &[String]) {
         }
         let who = rng.below(n as u64) as usize;
         let root = work.join(format!("m{r}"));
-        materialise(&root, n, &adj, rng.below(8), Some(who));
+        materialise(&root, n, &adj, rng.below(16), Some(who));
         dangling_checked += 1;
         match build_libcnb_buildpacks_dependency_graph(&root) {
             Ok(_) => {
